@@ -299,3 +299,469 @@ Section Consequences.
     induction 1 as [w nf w' E|w l w' _ IH St Sp]; [eapply inv_after_start; eauto|eapply inv_step; eauto].
   Qed.
 End Consequences.
+
+(* ---------- at most one success per handler between two purges of its record ---------- *)
+Section AtMostOnce.
+  Variable hc hu : list hid.
+  Variable lc : lifecycle.
+  Variable T : nat.
+  Hypothesis ids_unique : NoDup (hc ++ hu).
+
+  Notation step := (step hc hu lc T).
+  Notation cycle := (cycle hc hu lc T).
+  Notation process_at := (process_at hc hu lc).
+  Notation changing := (changing hc hu lc).
+  Notation planned := (planned hc hu lc).
+  Notation selected := (selected hc hu).
+
+  (* ---- records under rset / rdel ---- *)
+  Lemma rget_rset_same h v r : rget h (rset h v r) = Some v.
+  Proof. unfold rset. cbn. rewrite Nat.eqb_refl. reflexivity. Qed.
+
+  Lemma rget_rdel_other h k r : h <> k -> rget h (rdel k r) = rget h r.
+  Proof.
+    intro N. induction r as [|[a b] r IH]; cbn; [reflexivity|].
+    destruct (Nat.eqb k a) eqn:E.
+    - apply Nat.eqb_eq in E. subst a. apply Nat.eqb_neq in N. rewrite N. exact IH.
+    - cbn. destruct (Nat.eqb h a); [reflexivity|exact IH].
+  Qed.
+
+  Lemma rget_rdel_same h r : rget h (rdel h r) = None.
+  Proof.
+    induction r as [|[a b] r IH]; cbn; [reflexivity|].
+    destruct (Nat.eqb h a) eqn:E; [exact IH|]. cbn. rewrite E. exact IH.
+  Qed.
+
+  Lemma rget_rset_other h k v r : h <> k -> rget h (rset k v r) = rget h r.
+  Proof.
+    intro N. unfold rset. cbn. apply Nat.eqb_neq in N. rewrite N. apply rget_rdel_other. apply Nat.eqb_neq. exact N.
+  Qed.
+
+  Lemma rget_fold_rset_absent h (l : list (hid * hst)) r :
+    ~ In h (map fst l) -> rget h (fold_left (fun r kv => rset (fst kv) (snd kv) r) l r) = rget h r.
+  Proof.
+    revert r. induction l as [|[k v] l IH]; intros r NI; cbn; [reflexivity|].
+    rewrite IH; [|intro; apply NI; right; assumption].
+    apply rget_rset_other. intro; subst; apply NI; left; reflexivity.
+  Qed.
+
+  Lemma rget_fold_rset_present h v (l : list (hid * hst)) r :
+    NoDup (map fst l) -> In (h, v) l -> rget h (fold_left (fun r kv => rset (fst kv) (snd kv) r) l r) = Some v.
+  Proof.
+    revert r. induction l as [|[k w] l IH]; intros r ND I; [destruct I|].
+    cbn in ND. inversion ND as [|? ? NI ND']; subst. cbn [fold_left fst snd].
+    destruct I as [E|I].
+    - injection E as -> ->. rewrite rget_fold_rset_absent by exact NI. apply rget_rset_same.
+    - apply IH; assumption.
+  Qed.
+
+  Lemma rget_fold_rdel h (l : list hid) r :
+    rget h (fold_left (fun r k => rdel k r) l r) = if existsb (Nat.eqb h) l then None else rget h r.
+  Proof.
+    revert r. induction l as [|k l IH]; intro r; cbn; [reflexivity|].
+    rewrite IH. destruct (Nat.eqb h k) eqn:E.
+    - apply Nat.eqb_eq in E. subst k. cbn. destruct (existsb (Nat.eqb h) l); [reflexivity|apply rget_rdel_same].
+    - cbn. destruct (existsb (Nat.eqb h) l); [reflexivity|]. apply rget_rdel_other. apply Nat.eqb_neq. exact E.
+  Qed.
+
+  (* ---- what the merge part of a decision does to ONE handler's record ---- *)
+  Definition stored_for (d : decision) (h : hid) : option hst :=
+    match find (fun kv => Nat.eqb h (fst kv)) (d_store d) with Some kv => Some (snd kv) | None => None end.
+
+  Lemma apply_merge_rget d s h :
+    NoDup (map fst (d_store d)) ->
+    rget h (o_recs (apply_merge hc hu d s)) =
+    if d_purge d && existsb (Nat.eqb h) (owned hc hu) then None
+    else match stored_for d h with Some v => Some v | None => rget h (o_recs s) end.
+  Proof.
+    intro ND. unfold apply_merge. cbn [o_recs].
+    assert (St : rget h (fold_left (fun r kv => rset (fst kv) (snd kv) r) (d_store d) (o_recs s))
+                 = match stored_for d h with Some v => Some v | None => rget h (o_recs s) end).
+    { unfold stored_for. destruct (find (fun kv => Nat.eqb h (fst kv)) (d_store d)) as [[k v]|] eqn:F.
+      - apply find_some in F. destruct F as (I & E). cbn in E. apply Nat.eqb_eq in E. subst k.
+        apply rget_fold_rset_present; assumption.
+      - apply rget_fold_rset_absent. intro I. apply in_map_iff in I. destruct I as ([k v] & E & I). cbn in E. subst k.
+        pose proof (find_none _ _ F _ I) as X. cbn in X. rewrite Nat.eqb_refl in X. discriminate. }
+    destruct (d_purge d); cbn [andb]; [|exact St].
+    rewrite rget_fold_rdel. destruct (existsb (Nat.eqb h) (owned hc hu)); [reflexivity|exact St].
+  Qed.
+End AtMostOnce.
+
+Section AtMostOnce2.
+  Variable hc hu : list hid.
+  Variable lc : lifecycle.
+  Variable T : nat.
+  Hypothesis ids_unique : NoDup (hc ++ hu).
+
+  Notation step := (step hc hu lc T).
+  Notation cycle := (cycle hc hu lc T).
+  Notation process_at := (process_at hc hu lc).
+  Notation changing := (changing hc hu lc).
+  Notation planned := (planned hc hu lc).
+  Notation selected := (selected hc hu).
+  Notation state_after := (state_after hc hu lc).
+
+  (* the record part of a decision is either empty, or a purge without stores (resume), or the change handling's *)
+  Lemma process_store_cases init now nf carried c v oracle :
+    let d := process_at init now nf carried c v oracle in
+    (d_store d = [] /\ d_invoked d = [])
+    \/ (c = true /\ d_store d = d_store (changing now v oracle) /\ d_purge d = d_purge (changing now v oracle)
+        /\ d_invoked d = d_invoked (changing now v oracle)).
+  Proof.
+    unfold CycleWorld.process_at.
+    destruct (nf && negb (o_fin v)); [left; split; reflexivity|].
+    destruct (negb nf && o_fin v); [left; split; reflexivity|].
+    destruct (match cause_at init v with Noop => false | _ => has_handlers hc hu end); [|left; split; reflexivity].
+    destruct c; cbn [andb negb]; [|left; split; reflexivity].
+    destruct carried; cbn [negb]; [|left; split; reflexivity].
+    destruct (cause_at init v); cbn; try (right; repeat split; reflexivity).
+    left. split; reflexivity.
+  Qed.
+
+  Lemma selected_owned v h : In h (selected v) -> In h (owned hc hu).
+  Proof.
+    unfold CycleWorld.selected, owned. destruct (cause_of v); cbn; intro H; try tauto; apply in_or_app; tauto.
+  Qed.
+
+  Lemma nodup_app_l {A} (a b : list A) : NoDup (a ++ b) -> NoDup a.
+  Proof.
+    induction a as [|x a IH]; cbn; intro H; [constructor|].
+    inversion H as [|? ? NI ND]; subst. constructor; [|apply IH; exact ND].
+    intro I. apply NI. apply in_or_app. left. exact I.
+  Qed.
+
+  Lemma nodup_app_r {A} (a b : list A) : NoDup (a ++ b) -> NoDup b.
+  Proof.
+    induction a as [|x a IH]; cbn; intro H; [exact H|]. inversion H; subst. apply IH. assumption.
+  Qed.
+
+  Lemma selected_nodup v : NoDup (selected v).
+  Proof.
+    unfold CycleWorld.selected. destruct (cause_of v); try constructor.
+    - exact (nodup_app_l _ _ ids_unique).
+    - exact (nodup_app_r _ _ ids_unique).
+  Qed.
+
+  Lemma nodup_filter {A} (f : A -> bool) l : NoDup l -> NoDup (filter f l).
+  Proof. apply NoDup_filter. Qed.
+
+  Lemma changing_store_nodup now v oracle : NoDup (map fst (d_store (changing now v oracle))).
+  Proof.
+    unfold CycleWorld.changing. destruct (selected v) eqn:S; [constructor|].
+    destruct (all_done hc hu lc now v oracle); [constructor|]. cbn [d_store].
+    rewrite map_map. cbn [fst]. rewrite map_id. apply NoDup_filter. rewrite <- S. apply selected_nodup.
+  Qed.
+
+  (* a handler whose record in the view is finished is neither stored nor invoked *)
+  Lemma changing_keeps_finished now v oracle h ok :
+    rget h (o_recs v) = Some (HDone ok) -> stored_for (changing now v oracle) h = None.
+  Proof.
+    intro R. unfold stored_for.
+    destruct (find (fun kv => Nat.eqb h (fst kv)) (d_store (changing now v oracle))) as [[k s]|] eqn:F; [|reflexivity].
+    exfalso. apply find_some in F. destruct F as (I & E). cbn in E. apply Nat.eqb_eq in E. subst k.
+    unfold CycleWorld.changing in I. destruct (selected v) eqn:S; [destruct I|].
+    destruct (all_done hc hu lc now v oracle); [destruct I|]. cbn [d_store] in I.
+    apply in_map_iff in I. destruct I as (x & Ex & Ix). injection Ex as -> _.
+    apply filter_In in Ix. destruct Ix as (_ & B). rewrite R in B. rewrite orb_false_r in B.
+    apply existsb_exists in B. destruct B as (y & Iy & Ey). apply Nat.eqb_eq in Ey. subst y.
+    apply (planned_awake hc hu lc) in Iy. destruct Iy as (A & _). unfold hstate in A. rewrite R in A. discriminate.
+  Qed.
+
+  (* a handler invoked with OK is stored as finished, or everything is purged *)
+  Lemma changing_ok_recorded now v oracle h r :
+    In (h, r, OK) (d_invoked (changing now v oracle)) ->
+    (d_purge (changing now v oracle) = true /\ In h (owned hc hu))
+    \/ stored_for (changing now v oracle) h = Some (HDone true).
+  Proof.
+    intro I. pose proof I as I0. apply (invoked_only_unfinished hc hu lc 0) in I0. destruct I0 as (Sel & _ & _ & Eo).
+    unfold CycleWorld.changing in *. destruct (selected v) eqn:S; [destruct I|].
+    destruct (all_done hc hu lc now v oracle) eqn:D.
+    - left. split; [reflexivity|]. apply selected_owned with v. rewrite S. exact Sel.
+    - right. cbn [d_invoked d_store] in *. apply in_map_iff in I. destruct I as (x & Ex & Ix). injection Ex as -> _ Eok.
+      unfold stored_for.
+      assert (Iin : In (h, state_after now v oracle h)
+                       (map (fun h0 => (h0, state_after now v oracle h0))
+                            (filter (fun h0 => existsb (Nat.eqb h0) (planned now v)
+                                               || match rget h0 (o_recs v) with None => true | Some _ => false end) (h0 :: l)))).
+      { apply in_map_iff. exists h. split; [reflexivity|]. apply filter_In. split; [exact Sel|].
+        apply orb_true_iff. left. apply existsb_exists. exists h. split; [exact Ix|apply Nat.eqb_refl]. }
+      destruct (find (fun kv => Nat.eqb h (fst kv)) _) as [[k s]|] eqn:F.
+      + apply find_some in F. destruct F as (If & Ef). cbn in Ef. apply Nat.eqb_eq in Ef. subst k.
+        (* unique keys: the found entry is the one for h *)
+        assert (ND : NoDup (map fst (map (fun h0 => (h0, state_after now v oracle h0))
+                            (filter (fun h0 => existsb (Nat.eqb h0) (planned now v)
+                                               || match rget h0 (o_recs v) with None => true | Some _ => false end) (h0 :: l))))).
+        { rewrite map_map. cbn [fst]. rewrite map_id. apply NoDup_filter. rewrite <- S. apply selected_nodup. }
+        assert (s = state_after now v oracle h) as ->.
+        { clear - If Iin ND. induction (map _ _) as [|[a b] m IH]; [destruct If|].
+          cbn in ND. inversion ND as [|? ? NI ND']; subst.
+          destruct If as [E1|I1]; destruct Iin as [E2|I2].
+          - congruence.
+          - injection E1 as -> ->. exfalso. apply NI. apply in_map_iff. eexists. split; [|exact I2]. reflexivity.
+          - injection E2 as -> ->. exfalso. apply NI. apply in_map_iff. eexists. split; [|exact I1]. reflexivity.
+          - apply IH; assumption. }
+        unfold CycleWorld.state_after.
+        assert (existsb (Nat.eqb h) (planned now v) = true) as Ep.
+        { apply existsb_exists. exists h. split; [exact Ix|apply Nat.eqb_refl]. }
+        rewrite Ep, Eok. reflexivity.
+      + exfalso. pose proof (find_none _ _ F _ Iin) as X. cbn in X. rewrite Nat.eqb_refl in X. discriminate.
+  Qed.
+End AtMostOnce2.
+
+Section AtMostOnce3.
+  Variable hc hu : list hid.
+  Variable lc : lifecycle.
+  Variable T : nat.
+  Hypothesis ids_unique : NoDup (hc ++ hu).
+
+  Notation step := (step hc hu lc T).
+  Notation cycle := (cycle hc hu lc T).
+  Notation process_at := (process_at hc hu lc).
+  Notation changing := (changing hc hu lc).
+
+  Lemma recs_eqb_rget a b h : recs_eqb hc hu a b = true -> In h (owned hc hu) -> rget h a = rget h b.
+  Proof.
+    unfold recs_eqb. rewrite forallb_forall. intros H I. specialize (H h I).
+    destruct (rget h a) as [[r d|x]|], (rget h b) as [[r' d'|y]|]; try discriminate; try reflexivity.
+    - apply andb_true_iff in H. destruct H as [E1 E2]. apply Nat.eqb_eq in E1, E2. congruence.
+    - apply Bool.eqb_prop in H. congruence.
+  Qed.
+
+  (* one cycle (nothing lost): its log and what it does to the records of the owned handlers, for the SAME decision *)
+  Lemma cycle_spec w v rest oracle waited :
+    exists init now nf carried c,
+      let d := process_at init now nf carried c v oracle in
+      w_log (cycle w v rest oracle waited 0)
+      = w_log w ++ map (fun x => (fst (fst x), snd (fst x), o_ess v, snd x)) (d_invoked d)
+      /\ (waited = false -> pending_at (w_now w) (expect_after_event (w_mem w) v) = true -> c = false)
+      /\ (forall h, In h (owned hc hu) ->
+            rget h (o_recs (w_srv (cycle w v rest oracle waited 0)))
+            = if has_merge d then rget h (o_recs (apply_merge hc hu d (w_srv w))) else rget h (o_recs (w_srv w))).
+  Proof.
+    exists (m_initial (w_mem w)),
+           (match expect_after_event (w_mem w) v with
+            | Some (_, dl) => if pending_at (w_now w) (expect_after_event (w_mem w) v) && waited then dl else w_now w
+            | None => w_now w end),
+           (w_need_fin w), (m_carried (w_mem w)),
+           (negb (pending_at (w_now w) (expect_after_event (w_mem w) v)) || waited).
+    unfold CycleWorld.cycle. cbn [Nat.eqb negb andb]. cbn zeta.
+    set (d := CycleWorld.process_at _ _ _ _ _ _ _ _ _ _).
+    pose proof (stage_fns_ok d true) as F2. pose proof (stage_sleep_ok d) as F3.
+    unfold stage_merge. cbn [andb].
+    destruct (has_merge d) eqn:HM; cbn [andb].
+    - destruct (same_content hc hu (w_srv w) (apply_merge hc hu d (w_srv w))) eqn:SC.
+      + specialize (F2 (w_srv w) (w_srv w)).
+        destruct (stage_fns d true (w_srv w) (w_srv w)) as [[s2 ev2] c']. destruct F2 as (_ & R2).
+        match goal with |- context [stage_sleep d ?p ?a ?n s2] => specialize (F3 p a n s2); destruct (stage_sleep d p a n s2) as [[s3 ev3] t] end.
+        destruct F3 as (_ & R3). cbn [w_log w_srv]. split; [reflexivity|]. split; [intros -> P; rewrite P; reflexivity|].
+        intros h Ih. rewrite R3, R2. unfold same_content in SC. apply andb_true_iff in SC. destruct SC as (SC & _).
+        apply andb_true_iff in SC. destruct SC as (SC & _). apply andb_true_iff in SC. destruct SC as (_ & RE).
+        apply recs_eqb_rget; assumption.
+      + specialize (F2 (apply_merge hc hu d (w_srv w)) (apply_merge hc hu d (w_srv w))).
+        destruct (stage_fns d true (apply_merge hc hu d (w_srv w)) (apply_merge hc hu d (w_srv w))) as [[s2 ev2] c']. destruct F2 as (_ & R2).
+        match goal with |- context [stage_sleep d ?p ?a ?n s2] => specialize (F3 p a n s2); destruct (stage_sleep d p a n s2) as [[s3 ev3] t] end.
+        destruct F3 as (_ & R3). cbn [w_log w_srv]. split; [reflexivity|]. split; [intros -> P; rewrite P; reflexivity|].
+        intros h _. rewrite R3, R2. reflexivity.
+    - specialize (F2 (w_srv w) v).
+      destruct (stage_fns d true (w_srv w) v) as [[s2 ev2] c']. destruct F2 as (_ & R2).
+      match goal with |- context [stage_sleep d ?p ?a ?n s2] => specialize (F3 p a n s2); destruct (stage_sleep d p a n s2) as [[s3 ev3] t] end.
+      destruct F3 as (_ & R3). cbn [w_log w_srv]. split; [reflexivity|]. split; [intros -> P; rewrite P; reflexivity|].
+      intros h _. rewrite R3, R2. reflexivity.
+  Qed.
+End AtMostOnce3.
+
+Section AtMostOnce4.
+  Variable hc hu : list hid.
+  Variable lc : lifecycle.
+  Variable T : nat.
+  Hypothesis ids_unique : NoDup (hc ++ hu).
+
+  Notation step := (step hc hu lc T).
+  Notation cycle := (cycle hc hu lc T).
+  Notation process_at := (process_at hc hu lc).
+  Notation changing := (changing hc hu lc).
+  Notation planned := (planned hc hu lc).
+
+  Definition is_ok (o : outcome) : bool := match o with OK => true | _ => false end.
+
+  (* successful invocations of h among log entries *)
+  Definition oks (h : hid) (entries : list (hid * nat * nat * outcome)) : nat :=
+    List.length (filter (fun x => Nat.eqb h (fst (fst (fst x))) && is_ok (snd x)) entries).
+
+  Definition new_log (w w' : world) := skipn (List.length (w_log w)) (w_log w').
+
+  Lemma plan_nodup now v l : NoDup l -> NoDup (plan lc now v l).
+  Proof.
+    intro ND. unfold plan. destruct lc, l as [|x l']; try exact ND; try (constructor; fail);
+      (constructor; [intros []|constructor]).
+  Qed.
+
+  Lemma planned_nodup now v : NoDup (planned now v).
+  Proof.
+    unfold CycleWorld.planned. apply plan_nodup. unfold todo. apply NoDup_filter. apply selected_nodup. exact ids_unique.
+  Qed.
+
+  Lemma oks_changing_le_one now v oracle h e :
+    oks h (map (fun x => (fst (fst x), snd (fst x), e, snd x)) (d_invoked (changing now v oracle))) <= 1.
+  Proof.
+    assert (G : forall l, NoDup l ->
+              List.length (filter (fun x : hid * nat * nat * outcome => Nat.eqb h (fst (fst (fst x))) && is_ok (snd x))
+                 (map (fun x : hid * nat * outcome => (fst (fst x), snd (fst x), e, snd x))
+                      (map (fun h0 => (h0, retries_of (hstate now v h0), oracle h0)) l))) <= 1).
+    { induction l as [|a l IH]; intro ND; cbn; [lia|]. inversion ND as [|? ? NI ND']; subst.
+      destruct (Nat.eqb h a) eqn:E; cbn [andb].
+      - apply Nat.eqb_eq in E. subst a. destruct (is_ok (oracle h)); cbn [List.length].
+        + assert (Z : forall l', ~ In h l' ->
+                   filter (fun x : hid * nat * nat * outcome => Nat.eqb h (fst (fst (fst x))) && is_ok (snd x))
+                     (map (fun x : hid * nat * outcome => (fst (fst x), snd (fst x), e, snd x))
+                          (map (fun h0 => (h0, retries_of (hstate now v h0), oracle h0)) l')) = []).
+          { induction l' as [|b l' IH']; intro N; cbn; [reflexivity|].
+            destruct (Nat.eqb h b) eqn:Eb; [apply Nat.eqb_eq in Eb; subst; exfalso; apply N; left; reflexivity|].
+            cbn. apply IH'. intro; apply N; right; assumption. }
+          rewrite (Z l NI). cbn. lia.
+        + apply IH. exact ND'.
+      - apply IH. exact ND'. }
+    unfold oks, CycleWorld.changing. destruct (selected hc hu v); [cbn; lia|].
+    destruct (all_done hc hu lc now v oracle); cbn [d_invoked]; apply G; apply planned_nodup.
+  Qed.
+
+  (* ---- what a strict worker cycle does to one owned handler ---- *)
+  Lemma proc_facts w o w' h :
+    Inv w -> strict w (Proc o false 0) -> step w (Proc o false 0) = Some w' -> In h (owned hc hu) ->
+    (forall ok, rget h (o_recs (w_srv w)) = Some (HDone ok) ->
+        (rget h (o_recs (w_srv w')) = Some (HDone ok) \/ rget h (o_recs (w_srv w')) = None) /\ oks h (new_log w w') = 0)
+    /\ oks h (new_log w w') <= 1
+    /\ (0 < oks h (new_log w w') -> rget h (o_recs (w_srv w')) = Some (HDone true) \/ rget h (o_recs (w_srv w')) = None).
+  Proof.
+    intros I St Sp Ih. pose proof I as (U & S & F & R). destruct St as (_ & _ & Tm).
+    pose proof Sp as Sp0.
+    cbn in Sp. rewrite U in Sp. destruct (m_queue (w_mem w)) as [|v rest] eqn:Q; [discriminate|].
+    cbn [andb] in Sp.
+    match type of Sp with (if ?c then _ else _) = _ => destruct c; [|discriminate] end.
+    injection Sp as <-.
+    set (w0 := mkWorld (w_srv w) (mkMem true rest (m_carried (w_mem w)) None (m_expected (w_mem w)) (m_initial (w_mem w)))
+                       (w_need_fin w) (w_now w) (w_log w)) in *.
+    destruct (cycle_spec hc hu lc T w0 v rest (oracle_of o) false) as (init & now & nf & carried & c & L & Cf & Rc).
+    cbn zeta in *. set (d := process_at init now nf carried c v (oracle_of o)) in *.
+    specialize (Rc h Ih). cbn [w_srv w_log w0] in *.
+    assert (NL : new_log w (cycle w0 v rest (oracle_of o) false 0)
+                 = map (fun x => (fst (fst x), snd (fst x), o_ess v, snd x)) (d_invoked d)).
+    { unfold new_log. rewrite L. rewrite skipn_app, skipn_all, Nat.sub_diag. reflexivity. }
+    rewrite NL.
+    (* was the worker consistent?  if the decision is the change handling's, the view's records are current *)
+    destruct (process_store_cases hc hu lc init now nf carried c v (oracle_of o)) as [(Es & Ei)|(Ec & Es & Ep & Ei)]; fold d in Es, Ei.
+    - (* nothing stored, nothing invoked *)
+      rewrite Ei. cbn [map]. unfold oks at 1 2 3. cbn [filter List.length].
+      assert (K : rget h (o_recs (w_srv (cycle w0 v rest (oracle_of o) false 0)))
+                  = rget h (o_recs (w_srv w)) \/ rget h (o_recs (w_srv (cycle w0 v rest (oracle_of o) false 0))) = None).
+      { rewrite Rc. destruct (has_merge d); [|left; reflexivity].
+        rewrite (apply_merge_rget hc hu) by (rewrite Es; constructor).
+        unfold stored_for. rewrite Es. cbn [find].
+        destruct (d_purge d && existsb (Nat.eqb h) (owned hc hu)); [right|left]; reflexivity. }
+      split; [|split; [lia|intro P; lia]].
+      intros ok E. split; [|reflexivity]. destruct K as [K|K]; [left; congruence|right; exact K].
+    - (* the change handling ran: consistent, so the head view is fresh *)
+      fold d in Ep.
+      assert (Fresh : fresh_enough (m_expected (w_mem w)) v).
+      { unfold fresh_enough. destruct (m_expected (w_mem w)) as [[rv dl]|] eqn:Ex; [|exact Logic.I].
+        destruct (Nat.eqb rv (o_rv v)) eqn:Ev; [apply Nat.eqb_eq in Ev; lia|].
+        exfalso. unfold expect_after_event in *. cbn [m_expected w_mem w0] in *. rewrite Ex, Ev in *.
+        assert (c = false); [|congruence].
+        apply Cf; [reflexivity|]. unfold pending_at. apply Nat.ltb_lt. exact Tm. }
+      inversion R as [|? ? Rv _]; subst. specialize (Rv Fresh).
+      assert (ND : NoDup (map fst (d_store d))) by (rewrite Es; apply changing_store_nodup; exact ids_unique).
+      rewrite Ei.
+      assert (HM : 0 < oks h (map (fun x => (fst (fst x), snd (fst x), o_ess v, snd x)) (d_invoked (changing now v (oracle_of o))))
+                   -> has_merge d = true /\ exists r, In (h, r, OK) (d_invoked (changing now v (oracle_of o)))).
+      { unfold oks. intro P.
+        destruct (filter _ _) as [|x xs] eqn:Fl; [cbn in P; lia|].
+        assert (In x (x :: xs)) as Ix by (left; reflexivity). rewrite <- Fl in Ix.
+        apply filter_In in Ix. destruct Ix as (Im & B). apply andb_true_iff in B. destruct B as (B1 & B2).
+        apply in_map_iff in Im. destruct Im as ([[h' r'] o'] & Ex & Iy). subst x. cbn in B1, B2.
+        apply Nat.eqb_eq in B1. subst h'. destruct o'; try discriminate.
+        split; [|exists r'; exact Iy].
+        destruct (changing_ok_recorded hc hu lc ids_unique now v (oracle_of o) h r' Iy) as [(Pp & _)|St].
+        - unfold has_merge. rewrite Ep, Pp. destruct (d_store d); reflexivity.
+        - unfold has_merge. unfold stored_for in St. rewrite <- Es in St.
+          destruct (d_store d); [cbn in St; discriminate|reflexivity]. }
+      split; [|split].
+      + (* finished stays finished, and is not invoked *)
+        intros ok E. rewrite <- Rv in E. split.
+        * rewrite Rc. destruct (has_merge d); [|left; rewrite <- Rv; exact E].
+          rewrite (apply_merge_rget hc hu) by exact ND.
+          unfold stored_for. rewrite Es. fold (stored_for (changing now v (oracle_of o)) h).
+          rewrite (changing_keeps_finished hc hu lc now v (oracle_of o) h ok E).
+          destruct (d_purge d && existsb (Nat.eqb h) (owned hc hu)); [right; reflexivity|left; rewrite <- Rv; exact E].
+        * destruct (oks h _) eqn:Ok; [reflexivity|]. exfalso.
+          destruct (HM ltac:(lia)) as (_ & r & Iy).
+          apply (finished_never_invoked hc hu lc 0 now v (oracle_of o) h ok r OK E Iy).
+      + apply oks_changing_le_one.
+      + intro P. destruct (HM P) as (Hm & r & Iy). rewrite Rc, Hm.
+        rewrite (apply_merge_rget hc hu) by exact ND.
+        destruct (changing_ok_recorded hc hu lc ids_unique now v (oracle_of o) h r Iy) as [(Pp & Io)|St].
+        * rewrite Ep, Pp. cbn [andb].
+          assert (existsb (Nat.eqb h) (owned hc hu) = true) as ->.
+          { apply existsb_exists. exists h. split; [exact Io|apply Nat.eqb_refl]. }
+          right. reflexivity.
+        * unfold stored_for in *. rewrite Es, St.
+          destruct (d_purge d && existsb (Nat.eqb h) (owned hc hu)); [right|left]; reflexivity.
+  Qed.
+End AtMostOnce4.
+
+(* ---------- the theorem: at most one success between two purges, for every strict history ---------- *)
+Section AtMostOnceTheorem.
+  Variable hc hu : list hid.
+  Variable lc : lifecycle.
+  Variable T : nat.
+  Hypothesis ids_unique : NoDup (hc ++ hu).
+
+  Notation step := (step hc hu lc T).
+
+  (* strict histories, with a ghost counter per handler: successes since its record was last absent on the server *)
+  Inductive counted : world -> (hid -> nat) -> Prop :=
+  | c_start w nf w' : step w (Start nf) = Some w' -> counted w' (fun _ => 0)
+  | c_step w c l w' : counted w c -> strict w l -> step w l = Some w' ->
+      counted w' (fun h => match rget h (o_recs (w_srv w')) with
+                           | None => 0
+                           | Some _ => c h + oks h (new_log w w')
+                           end).
+
+  Lemma counted_reach w c : counted w c -> strict_reach hc hu lc T w.
+  Proof. induction 1; [eapply sr_start; eauto|eapply sr_step; eauto]. Qed.
+
+  Lemma non_proc_step_keeps w l w' :
+    strict w l -> step w l = Some w' -> (forall o wt lost, l <> Proc o wt lost) ->
+    o_recs (w_srv w') = o_recs (w_srv w) /\ new_log w w' = [].
+  Proof.
+    intros St Sp NP. destruct l; cbn in St; try contradiction; try (exfalso; eapply NP; reflexivity).
+    - cbn in Sp. injection Sp as <-. cbn. unfold new_log. cbn. rewrite skipn_all. split; reflexivity.
+    - cbn in Sp. injection Sp as <-. unfold new_log. cbn. rewrite skipn_all. split; reflexivity.
+    - cbn in Sp. destruct (m_up (w_mem w)); [|discriminate]. destruct (m_timer (w_mem w)); [|discriminate].
+      destruct (m_queue (w_mem w)); [|discriminate]. destruct (n <=? w_now w); [|discriminate].
+      injection Sp as <-. unfold new_log. cbn. rewrite skipn_all. split; reflexivity.
+    - cbn in Sp. injection Sp as <-. unfold new_log. cbn. rewrite skipn_all. split; reflexivity.
+  Qed.
+
+  Theorem at_most_one_success_between_purges w c :
+    counted w c -> forall h, In h (owned hc hu) ->
+    c h <= 1 /\ (c h = 1 -> rget h (o_recs (w_srv w)) = Some (HDone true)).
+  Proof.
+    induction 1 as [w nf w' E|w c l w' Cn IH St Sp]; intros h Ih; [split; [lia|intro; lia]|].
+    specialize (IH h Ih). destruct IH as (Le & One).
+    pose proof (strict_reach_inv hc hu lc T w (counted_reach w c Cn)) as I.
+    destruct l as [e|d|o wt lost| | | | |];
+      try (destruct (non_proc_step_keeps w _ w' St Sp ltac:(intros; discriminate)) as (Er & En);
+           rewrite Er, En; unfold oks; cbn [filter List.length];
+           destruct (rget h (o_recs (w_srv w))) eqn:G; [rewrite Nat.add_0_r; split; [exact Le|exact One]|split; [lia|intro; lia]]).
+    (* a worker cycle *)
+    pose proof St as (-> & -> & _).
+    destruct (proc_facts hc hu lc T ids_unique w o w' h I St Sp Ih) as (Keep & Le1 & Okd).
+    destruct (rget h (o_recs (w_srv w'))) as [s'|] eqn:G'; [|split; [lia|intro; lia]].
+    destruct (Nat.eq_dec (c h) 1) as [C1|C0].
+    - (* already succeeded: the record is finished, so no further success *)
+      destruct (Keep true (One C1)) as ([K|K] & Z); [|congruence].
+      rewrite Z, C1. split; [lia|]. intros _. congruence.
+    - assert (c h = 0) as -> by lia. cbn [Nat.add]. split; [exact Le1|].
+      intro E1. destruct (Okd ltac:(lia)) as [K|K]; congruence.
+  Qed.
+End AtMostOnceTheorem.
